@@ -870,4 +870,697 @@ Proof.
       eapply cext_trans; [apply Xm12|apply Xm23].
 Qed.
 
+(* ------------------------------------------------------------ application of a builtin *)
+(* besides [builtin_ok]: a builtin with a specified result leaves the lexical environments alone *)
+Definition builtin_envs (b : N) : Prop :=
+  forall m v m' rs r, bsem b rs = Some r -> run_builtin b m = ROk v m' -> envs (st m') = envs (st m).
+
+Lemma wf2_app ps f args : wf_expr2 (XApp f args) ps <->
+  special_head (cell_of2 f) = false /\ wf_expr2 f ps /\ Forall (fun x => wf_expr2 x ps) args.
+Proof. cbn [wf_expr2]. rewrite wf2_all. reflexivity. Qed.
+
+Lemma cok2_app ps f0 args : (forall b, builtin_ok ob bsem b) -> (forall b, builtin_envs b) ->
+  wf_expr2 (XApp f0 args) ps ->
+  compile_ok2 ps f0 -> Forall (compile_ok2 ps) args -> compile_ok2 ps (XApp f0 args).
+Proof.
+  intros Hb He Hwf IHf IHargs f l tail s Hf Hh MI. destruct f as [|f]; [lia|].
+  apply wf2_app in Hwf as (Hsp & _ & _).
+  cbn [cell_of2] in *. fold (cells_of2 args) in *. cbn [cell_size] in Hf.
+  rewrite compile_application_eq by exact Hsp.
+  destruct (args_ok2 ps args IHargs f l 0 s ltac:(lia) Hh MI) as (l1 & s1 & ca & E1 & F1 & S1 & MI1 & X1 & R1 & EX1).
+  rewrite N.add_0_l in E1.
+  set (l2 := emit (emit_op l1 OPushImmediate) (VArgc (len args))).
+  assert (S2 : same_hdr l l2) by (eapply same_hdr_trans; [exact S1|repeat split]).
+  destruct (IHf f l2 false s1 ltac:(lia) (hdr_same _ _ _ _ S2 (hdr_ext _ _ _ _ X1 Hh)) MI1)
+    as (l3 & s2 & cf & E3 & F3 & S3 & MI2 & X2 & R2 & EX3).
+  set (callop := VOp (if tail then OTCallAcc else OCallAcc)).
+  exists (emit_op l3 (if tail then OTCallAcc else OCallAcc)), s2,
+         (ca ++ [VOp OPushImmediate; VArgc (len args)] ++ cf ++ [callop]).
+  unfold bindM at 1. rewrite E1. cbv beta iota. unfold bindM at 1. fold l2. rewrite E3.
+  split; [reflexivity|].
+  split; [rewrite fwd_emit_op, F3; unfold l2; rewrite fwd_emit, fwd_emit_op, F1, <- !app_assoc; reflexivity|].
+  split; [eapply same_hdr_trans; [exact S2|]; eapply same_hdr_trans; [exact S3|repeat split]|].
+  split; [exact MI2|]. split; [eapply cext_trans; eassumption|]. split; [eapply same_regs_trans; eassumption|].
+  set (p := len (fwd l)) in *.
+  assert (L2 : len (fwd l2) = p + len ca + 2) by (unfold l2; rewrite fwd_emit, fwd_emit_op, F1; lens; fold p; lia).
+  rewrite L2 in EX3.
+  intros lv rho r rho' HR. inversion HR; subst.
+  match goal with H : ref_evals2 _ _ rho args _ _ |- _ => rename H into HRa end.
+  match goal with H : ref_eval2 _ _ _ f0 _ _ |- _ => rename H into HRf end.
+  match goal with H : bsem _ _ = Some r |- _ => rename H into Hsem end.
+  intros m lp bc X MIm Hc Hs Hip G L _. left.
+  apply seg_app in Hs as [Hsa Hs]. apply seg_app in Hs as [Hsi Hs]. rewrite len2 in Hs.
+  apply seg_app in Hs as [Hsf Hsc].
+  (* operands *)
+  destruct (EX1 _ _ _ _ HRa m lp bc (cext_trans _ _ _ X2 X) MIm Hc Hsa Hip G L)
+    as (n1 & m1 & vs & St1 & MIm1 & Hip1 & G1 & Xm1 & Hsp1 & Hbp1 & Hep1 & Hlog1 & Hst1 & Hlen & Hvs & Vvs).
+  pose proof (code_in_ext _ _ _ _ Hc (rx_cext _ _ Xm1)) as Hc1.
+  (* PUSH Argc n *)
+  pose proof (step_pushimm ob m1 lp _ bc _ Hc1 Hip1 Hsi ltac:(discriminate)) as Ei.
+  set (m2 := pushed (with_ip m1 (lp, p + len ca + 2)) (VArgc (len args))) in *.
+  assert (Xm12 : rext m1 m2) by (apply rext_same; try reflexivity; lia).
+  assert (MIm2 : minv m2).
+  { destruct MIm1 as [HI GI SP]. constructor; [exact HI|exact GI|]. apply pushed_sp_lt. exact SP. }
+  assert (Hc2 : code_in m2 lp bc) by (eapply code_in_regs; [| |exact Hc1]; reflexivity).
+  assert (G2 : genv_rel rho1 m2) by (eapply genv_rel_ext; [apply Xm12|reflexivity|exact G1]).
+  assert (Xs2m2 : cext s2 m2) by (eapply cext_trans; [exact X|]; eapply cext_trans; [apply Xm1|apply Xm12]).
+  assert (Hsp2 : sp m2 = sp m + len args + 1) by (cbn [sp m2 pushed with_scap with_stack with_ip]; rewrite Hsp1; reflexivity).
+  assert (L2' : lrel lv m2).
+  { eapply lrel_rext; [exact Xm12|reflexivity|]. eapply lrel_rext; [exact Xm1|exact Hep1|exact L]. }
+  (* operator *)
+  destruct (exec2_n _ _ _ _ _ _ _ (EX3 _ _ _ _ HRf) m2 lp bc Xs2m2 MIm2 Hc2 Hsf eq_refl G2 L2')
+    as (n3 & m3 & St3 & Fr3 & MIm3 & Hip3 & V3 & G3).
+  pose proof (f2_frame _ _ Fr3) as Fr3'.
+  pose proof (code_in_ext _ _ _ _ Hc2 (fr_ext _ _ Fr3')) as Hc3.
+  destruct V3 as (pb & Hacc3 & Ab & Cb).
+  assert (Hd3 : heap_deref (hp m3) (acc m3) = Ok (VBuiltin b)).
+  { rewrite Hacc3. cbn [heap_deref]. rewrite (heap_get_alloc _ _ Ab), Cb. reflexivity. }
+  set (q := p + len ca + 2 + len cf) in *.
+  set (m3' := with_ip m3 (lp, q + 1)).
+  assert (SM3 : same_mem m3 m3') by (repeat split).
+  pose proof (same_mem_minv _ _ SM3 MIm3) as MIm3'.
+  assert (Hsp3 : sp m3' = sp m + len vs + 1) by (cbn [sp m3' with_ip]; rewrite (fr_sp _ _ Fr3'), Hsp2, Hlen; reflexivity).
+  assert (Hm23 : forall j, j <= sp m2 -> sget m3' j = sget m2 j) by (intros j Hj; apply (fr_stack _ _ Fr3'); exact Hj).
+  assert (Htop : sget m3' (sp m3') = VArgc (len vs)).
+  { rewrite Hsp3, Hm23 by (rewrite Hsp2, Hlen; lia). rewrite Hlen, <- Hsp1. unfold m2.
+    change (sp m1) with (sp (with_ip m1 (lp, p + len ca + 2))). apply sget_pushed_top. }
+  assert (Hargs : forall i v, list_get vs i = Some v -> sget m3' (sp m + 1 + i) = v).
+  { intros i v Hi. pose proof (list_get_lt _ _ _ Hi) as Hlt. rewrite Hm23 by (rewrite Hsp2, <- Hlen; lia).
+    unfold m2. rewrite sget_pushed_other by (cbn [sp with_ip]; rewrite Hsp1, <- Hlen; lia).
+    change (sget (with_ip m1 _) (sp m + 1 + i)) with (sget m1 (sp m + 1 + i)). apply Hvs. exact Hi. }
+  assert (Vvs3 : Forall2 (fun v r => vrep v r (hp m3') (st m3')) vs rs).
+  { clear -Vvs Xm12 Fr3'. induction Vvs as [|v0 r0 vs0 rs0 V0 _ IHV]; constructor; [|exact IHV].
+    eapply vrep_ext; [exact V0|]. apply (cext_ext m1 m3). eapply cext_trans; [apply Xm12|apply Fr3']. }
+  destruct (Hb b m3' (sp m) vs rs r MIm3' Hsp3 Htop Hargs Vvs3 Hsem)
+    as (v & m4 & Hrun & MIm4 & Xm34 & V4 & Hsp4 & Hst4 & Hbp4 & Hep4 & Hip4 & Hg4 & Hlog4).
+  pose proof (He b m3' v m4 rs r Hsem Hrun) as Henv4.
+  destruct (match v with VPtr _ => (v, hp m4) | _ => heap_maybe_put (hp m4) v end) as [v' h'] eqn:Ebox.
+  destruct (vrep_box _ _ _ _ _ _ (mi_heap _ MIm4) V4 Ebox) as (HI5 & Hx5 & V5).
+  pose proof (step_call_builtin ob m3 lp q bc tail b v m4 v' h' Hc3 Hip3 Hsc Hd3 Hrun Ebox) as Ec.
+  set (m5 := with_acc (with_heap m4 h') v') in *.
+  assert (Xm45 : cext m4 m5).
+  { eapply cext_trans; [apply (cext_heap m4 h' Hx5)|]. apply cext_same; try reflexivity; cbn [g_slots with_acc with_heap]; lia. }
+  assert (Xm35 : rext m3 m5).
+  { split.
+    - eapply cext_trans; [apply (fr_ext _ _ (same_mem_frame _ _ SM3))|]. eapply cext_trans; eassumption.
+    - intros j _. change (st m5) with (st m4). rewrite Henv4. reflexivity. }
+  assert (Xm05 : rext m m5).
+  { eapply rext_trans; [exact Xm1|]. eapply rext_trans; [exact Xm12|]. eapply rext_trans; [apply frame2_rext; exact Fr3|exact Xm35]. }
+  exists (n1 + 1 + n3 + 1)%nat, m5.
+  split; [eapply steps_trans; [eapply steps_trans; [eapply steps_trans; [exact St1|apply steps_one; exact Ei]|exact St3]|apply steps_one; exact Ec]|].
+  split.
+  { split; [|apply Xm05]. constructor.
+    - apply Xm05.
+    - exact Hsp4.
+    - change (bp m5) with (bp m4). rewrite Hbp4. change (bp m3') with (bp m3). rewrite (fr_bp _ _ Fr3'). exact Hbp1.
+    - change (ep m5) with (ep m4). rewrite Hep4. change (ep m3') with (ep m3). rewrite (fr_ep _ _ Fr3'). exact Hep1.
+    - change (out_log m5) with (out_log m4). rewrite Hlog4. change (out_log m3') with (out_log m3).
+      rewrite (fr_log _ _ Fr3'). exact Hlog1.
+    - intros j Hj. change (sget m5 j) with (sget m4 j). rewrite Hst4 by exact Hj.
+      rewrite Hm23 by (rewrite Hsp2; lia). unfold m2.
+      rewrite sget_pushed_other by (cbn [sp with_ip]; rewrite Hsp1; lia).
+      change (sget (with_ip m1 _) j) with (sget m1 j). apply Hst1. exact Hj. }
+  split.
+  { destruct MIm4 as [HI4 GI4 SP4]. constructor; [exact HI5|exact GI4|exact SP4]. }
+  split.
+  { change (ip m5) with (ip m4). rewrite Hip4. cbn [ip m3' with_ip]. f_equal. unfold q. lens. lia. }
+  split; [exact V5|].
+  eapply genv_rel_ext; [apply Xm35| |exact G3]. change (g_slots m5) with (g_slots m4). rewrite Hg4. reflexivity.
+Qed.
+
+(* ------------------------------------------------------------ running an applied lambda *)
+Definition lam_in (m : vm) (lamp : N) (lam : lambda) : Prop :=
+  exists lid, allocated (hp m) lamp /\ cell_at (hp m) lamp = VLambda lid /\ lid < next_id (st m) /\
+    tget (lams (st m)) lid = Some lam.
+Lemma lam_in_ext m m' lamp lam : cext m m' -> lam_in m lamp lam -> lam_in m' lamp lam.
+Proof.
+  intros X (lid & A & C & Lt & T). destruct (ce_heap _ _ X lamp A) as [A' C'].
+  exists lid. split; [exact A'|]. split; [congruence|]. split; [destruct (ce_store _ _ X); lia|].
+  rewrite (ce_lams _ _ X) by assumption. exact T.
+Qed.
+Lemma lam_in_code m lamp lam : lam_in m lamp lam -> code_in m lamp (l_bc lam).
+Proof. intros (lid & A & C & Lt & T). exists lid, lam. auto. Qed.
+Lemma lam_in_regs m m' lamp lam : hp m' = hp m -> st m' = st m -> lam_in m lamp lam -> lam_in m' lamp lam.
+Proof. intros Eh Es. unfold lam_in. rewrite Eh, Es. auto. Qed.
+
+Lemma Forall2_nth_r {A B} (P : A -> B -> Prop) la lb : Forall2 P la lb ->
+  forall i b, nth_error lb i = Some b -> exists a, nth_error la i = Some a /\ P a b.
+Proof.
+  induction 1 as [|a0 b0 la lb H0 _ IH]; intros i b Hi; [destruct i; discriminate|].
+  destruct i as [|i]; cbn [nth_error] in *; [injection Hi as <-; eauto|apply IH; exact Hi].
+Qed.
+Lemma Forall2_len {A B} (P : A -> B -> Prop) la lb : Forall2 P la lb -> len la = len lb.
+Proof. intros H. unfold len. f_equal. induction H; cbn [length]; congruence. Qed.
+
+(* from the first instruction (ENTER) of a lambda entered with n arguments above the base B
+   and the return information (e, l0, i0) to the state after its RET — or after the RET of a
+   frame that a tail call of the body put in its place *)
+Lemma callee_run sB lamp lam cb n B e l0 i0 vs rs rho1 r rho2 m5 cp cep ceid cslots :
+  exec2 sB 1 cb true rs rho1 r rho2 ->
+  cext sB m5 -> minv m5 -> lam_in m5 lamp lam -> l_bc lam = [VOp OEnter] ++ cb ++ [VOp ORet] ->
+  l_envmap lam = ScopeProofs.enum_args (l_args lam) 0 -> len (l_args lam) = n ->
+  ip m5 = (lamp, 0) -> acc m5 = VPtr cp -> heap_get (hp m5) cp = Ok (VClosure lamp cep) ->
+  heap_get (hp m5) cep = Ok (VLexEnv ceid) -> tget (envs (st m5)) ceid = Some cslots -> len cslots = n ->
+  sp m5 = B + n + 3 -> sget m5 (B + n + 1) = VArgc n -> sget m5 (B + n + 2) = VEp e ->
+  sget m5 (B + n + 3) = VIp l0 i0 ->
+  len vs = n -> (forall i v, list_get vs i = Some v -> sget m5 (B + 1 + i) = v) ->
+  Forall2 (fun v r => vrep v r (hp m5) (st m5)) vs rs ->
+  genv_rel rho1 m5 ->
+  exists k m8, steps k m5 = Some m8 /\ rext m5 m8 /\ minv m8 /\ vrep (acc m8) r (hp m8) (st m8) /\
+    genv_rel rho2 m8 /\ sp m8 = B /\ ep m8 = e /\ ip m8 = (l0, i0) /\ bp m8 = bp m5 /\
+    out_log m8 = out_log m5 /\ (forall j, j <= B -> sget m8 j = sget m5 j).
+Proof.
+  intros EXb XB MI5 Hlam Hbc Henv Hlen Hip Hacc Hcp Hcep Hcs Hcl Hsp H1 H2 H3 Hvl Hvs Vvs G5.
+  pose proof (lam_in_code _ _ _ Hlam) as Hc5. rewrite Hbc in Hc5.
+  destruct Hlam as (lid & Al & Cl & Ltl & Tl).
+  assert (Hgl : heap_get (hp m5) lamp = Ok (VLambda lid)) by (rewrite (heap_get_alloc _ _ Al), Cl; reflexivity).
+  destruct (step_enter_closure ob m5 lamp _ cp cep lid lam ceid cslots n Hc5 Hip eq_refl MI5 Hacc Hcp Hgl Tl Henv Hlen
+              Hcep Hcs Hcl ltac:(lia) ltac:(rewrite Hsp; replace (B + n + 3 - 2) with (B + n + 1) by lia; exact H1))
+    as (m6 & evp & env & E6 & MI6 & X56 & Hsp6 & Hbp6 & Hep6 & Hip6 & Hacc6 & Hlog6 & Hg6 & Htop6 & Hst6 &
+        Aev & Cev & Tev & Ltev & Lenv & Henvj).
+  assert (Hbp6' : bp m6 = B + n) by (rewrite Hbp6, Hsp; lia).
+  assert (Hk6 : forall j, j <= B + n + 3 -> sget m6 j = sget m5 j) by (intros j Hj; apply Hst6; lia).
+  assert (Hfr6 : frame_at m6 n e (l0, i0) (bp m5)).
+  { unfold frame_at. rewrite Hbp6'. rewrite !Hk6 by lia.
+    replace (B + n + 4) with (sp m5 + 1) by lia. rewrite Htop6. cbn [fst snd]. repeat split; auto. lia. }
+  assert (Ht6 : tframe m6) by (exists n, e, (l0, i0), (bp m5); split; [exact Hfr6|lia]).
+  assert (L6 : lrel rs m6).
+  { intros i ri Hi. destruct (Forall2_nth_r _ _ _ Vvs _ _ Hi) as (v & Hv & Vv).
+    assert (Hlt : i < n).
+    { rewrite <- Hvl. unfold len. assert (N.to_nat i < length vs)%nat by (apply nth_error_Some; congruence). lia. }
+    exists (next_id (st m5)), env, v. rewrite Hep6. split; [exact Aev|]. split; [exact Cev|]. split; [exact Ltev|].
+    split; [exact Tev|]. split.
+    - rewrite (Henvj i Hlt). f_equal. rewrite <- (Hvs i v Hv). f_equal. lia.
+    - eapply vrep_ext; [exact Vv|apply cext_ext, X56]. }
+  assert (Hc6 : code_in m6 lamp ([VOp OEnter] ++ cb ++ [VOp ORet])) by (eapply code_in_ext; [exact Hc5|apply X56]).
+  assert (Hsb : seg ([VOp OEnter] ++ cb ++ [VOp ORet]) 1 cb) by (exists [VOp OEnter], [VOp ORet]; auto).
+  assert (G6 : genv_rel rho1 m6) by (eapply genv_rel_ext; [apply X56|exact Hg6|exact G5]).
+  destruct (EXb m6 lamp _ (cext_trans _ _ _ XB (rx_cext _ _ X56)) MI6 Hc6 Hsb Hip6 G6 L6 (fun _ => Ht6))
+    as [(n7 & m7 & St7 & Fr7 & MI7 & Hip7 & V7 & G7)|[_ (n7 & m8 & k' & e' & i' & b' & St8 & Hfr' & X68 & MI8 & V8 & G8 & E1 & E2 & E3 & E4 & E5 & K8)]].
+  - (* the body ends at RET *)
+    pose proof (f2_frame _ _ Fr7) as Fr7'.
+    pose proof (code_in_ext _ _ _ _ Hc6 (fr_ext _ _ Fr7')) as Hc7.
+    assert (Hsr : seg ([VOp OEnter] ++ cb ++ [VOp ORet]) (1 + len cb) [VOp ORet]).
+    { exists ([VOp OEnter] ++ cb), []. rewrite app_nil_r, <- app_assoc. split; [reflexivity|]. lens. lia. }
+    assert (Hbp7 : bp m7 = B + n) by (rewrite (fr_bp _ _ Fr7'); exact Hbp6').
+    assert (Hsp7 : sp m7 = B + n + 4) by (rewrite (fr_sp _ _ Fr7'), Hsp6, Hsp; lia).
+    assert (Hk7 : forall j, j <= B + n + 4 -> sget m7 j = sget m6 j) by (intros j Hj; apply (fr_stack _ _ Fr7'); lia).
+    destruct Hfr6 as (F1 & F2 & F3 & F4 & _). rewrite Hbp6' in F1, F2, F3, F4. cbn [fst snd] in F3.
+    pose proof (step_ret_n ob m7 lamp (1 + len cb) _ n e l0 i0 (bp m5) Hc7 Hip7 Hsr
+                  ltac:(rewrite Hbp7, <- Hsp7; apply MI7) ltac:(lia)
+                  ltac:(rewrite Hbp7, Hk7 by lia; exact F1) ltac:(rewrite Hbp7, Hk7 by lia; exact F2)
+                  ltac:(rewrite Hbp7, Hk7 by lia; exact F3) ltac:(rewrite Hbp7, Hk7 by lia; exact F4)) as E8.
+    set (m8 := with_bp (with_ip (with_ep (with_sp (with_ip m7 (lamp, 1 + len cb + 1)) (bp m7 - n)) e) (l0, i0)) (bp m5)) in *.
+    assert (X78 : rext m7 m8) by (apply rext_same; try reflexivity; lia).
+    exists (1 + n7 + 1)%nat, m8.
+    split; [eapply steps_trans; [eapply steps_trans; [apply steps_one; exact E6|exact St7]|apply steps_one; exact E8]|].
+    split; [eapply rext_trans; [exact X56|]; eapply rext_trans; [apply frame2_rext; exact Fr7|exact X78]|].
+    split.
+    { destruct MI7 as [HI GI SP]. constructor; [exact HI|exact GI|].
+      cbn [sp scap m8 with_bp with_ip with_ep with_sp with_stack]. lia. }
+    split; [exact V7|]. split; [eapply genv_rel_ext; [apply X78|reflexivity|exact G7]|].
+    split; [cbn [sp m8 with_bp with_ip with_ep with_sp with_stack]; lia|].
+    split; [reflexivity|]. split; [reflexivity|]. split; [reflexivity|].
+    split; [cbn [out_log m8 with_bp with_ip with_ep with_sp with_stack]; rewrite (fr_log _ _ Fr7'); exact Hlog6|].
+    intros j Hj. change (sget m8 j) with (sget m7 j). rewrite Hk7, Hk6 by lia. reflexivity.
+  - (* the body left through a tail call *)
+    destruct Hfr6 as (F1 & F2 & F3 & F4 & _). destruct Hfr' as (F1' & F2' & F3' & F4' & _).
+    rewrite F1 in F1'. rewrite F2 in F2'. rewrite F3 in F3'. rewrite F4 in F4'.
+    injection F1' as <-. injection F2' as <-. injection F4' as <-. cbn [fst snd] in F3'.
+    assert (i' = (l0, i0)) as -> by (destruct i'; cbn [fst snd] in F3'; congruence).
+    exists (1 + n7)%nat, m8. split; [eapply steps_trans; [apply steps_one; exact E6|exact St8]|].
+    split; [eapply rext_trans; eassumption|]. split; [exact MI8|]. split; [exact V8|]. split; [exact G8|].
+    split; [rewrite E1, Hbp6'; lia|]. split; [exact E2|]. split; [exact E3|]. split; [exact E4|].
+    split; [rewrite E5; exact Hlog6|].
+    intros j Hj. rewrite K8 by (rewrite Hbp6'; lia). apply Hk6. lia.
+Qed.
+
+(* ------------------------------------------------------------ ((lambda (x ...) body) e ...) *)
+Lemma wf2_let ps ps' body args : wf_expr2 (XLet ps' body args) ps <->
+  length args = length ps' /\ (forall x, In x ps' -> is_primitive_symbol (CSym x) = false) /\
+  is_define body = false /\ nocapture ps (lam_cell ps' (cell_of2 body)) /\
+  wf_expr2 body ps' /\ Forall (fun x => wf_expr2 x ps) args.
+Proof. cbn [wf_expr2]. rewrite wf2_all. reflexivity. Qed.
+
+Lemma lam_cell_size ps b : (cell_size b + 2 < cell_size (lam_cell ps b))%nat.
+Proof. unfold lam_cell. cbn [cell_size]. lia. Qed.
+
+Lemma cok2_let ps0 ps body args : wf_expr2 (XLet ps body args) ps0 ->
+  compile_ok2 ps body -> Forall (compile_ok2 ps0) args -> compile_ok2 ps0 (XLet ps body args).
+Proof.
+  intros Hwf IHb IHargs f l tail s Hf Hh MI. destruct f as [|f]; [lia|].
+  apply wf2_let in Hwf as (Hlen & Hprim & Hnd & (fs & Hfs & Hnc) & Hwb & _).
+  cbn [cell_of2] in *. fold (cells_of2 args) in *. cbn [cell_size] in Hf.
+  pose proof (lam_cell_size ps (cell_of2 body)) as Hlsz.
+  rewrite compile_application_eq by reflexivity.
+  destruct (args_ok2 ps0 args IHargs f l 0 s ltac:(lia) Hh MI) as (l1 & s1 & ca & E1 & F1 & S1 & MI1 & X1 & R1 & EX1).
+  rewrite N.add_0_l in E1.
+  set (n := len args) in *.
+  set (l2 := emit (emit_op l1 OPushImmediate) (VArgc n)).
+  assert (S2 : same_hdr l l2) by (eapply same_hdr_trans; [exact S1|repeat split]).
+  destruct f as [|f']; [lia|].
+  unfold bindM at 1. rewrite E1. cbv beta iota. unfold bindM at 1. fold l2. rewrite compile_lambda_eq.
+  (* formals *)
+  destruct (formals_ok ps s1 Hprim MI1) as (aps & s2 & E2 & MI2 & X2 & R2 & Fa).
+  unfold bindM at 1. rewrite E2. cbv beta iota.
+  (* free symbols *)
+  unfold bindM at 1. unfold lift at 1. rewrite Hfs.
+  destruct (put_cells_ok fs s2 MI2) as (frefs & s3 & E3 & MI3 & X3 & R3 & Ff).
+  unfold bindM at 1. rewrite E3.
+  unfold bindM at 1. unfold lift at 1. rewrite (ids_body body ps Hwb Hnd).
+  unfold bindM at 1. cbn [put_cells]. unfold ret at 1. cbv beta iota zeta.
+  set (lam2 := emit_op (set_desc (lambda_from_iof aps [] l2 frefs false) (syms_of ps)) OEnter).
+  assert (X13 : cext s1 s3) by (eapply cext_trans; eassumption).
+  assert (X03 : cext s s3) by (eapply cext_trans; eassumption).
+  assert (Hh2 : hdr l2 ps0 s3) by (eapply hdr_same; [exact S2|]; eapply hdr_ext; eassumption).
+  assert (Hem : l_envmap lam2 = ScopeProofs.enum_args aps 0).
+  { change (l_envmap lam2) with (envmap_new aps [] l2 frefs).
+    rewrite ScopeProofs.envmap_new_eq, (free_part_nil l2 ps0 s3 frefs fs Hh2 (mi_heap _ MI3) Ff Hnc).
+    cbn [map]. rewrite !app_nil_r. reflexivity. }
+  assert (Hhb : hdr lam2 ps s3) by (split; [exact Hem|eapply pnames_ext; [exact X3|exact Fa]]).
+  (* body *)
+  destruct (IHb f' lam2 true s3 ltac:(lia) Hhb MI3) as (lam3 & s4 & cb & E4 & F4 & S4 & MI4 & X4 & R4 & EX4).
+  unfold bindM at 1. unfold bindM at 1. rewrite E4. unfold ret at 1.
+  destruct (put_lambda_spec (emit_op lam3 ORet) s4 MI4) as (lamp & s5 & E5 & MI5 & X5 & R5 & Gb5 & _ & A5 & C5 & L5 & T5).
+  unfold bindM at 1. rewrite E5. unfold ret at 1. unfold ret at 1.
+  set (callop := VOp (if tail then OTCallAcc else OCallAcc)).
+  set (lamF := lambda_finish (emit_op lam3 ORet)) in *.
+  exists (emit_op (emit_op (emit (emit (emit_op l2 OMovImmediate) (VPtr lamp)) VAcc) OClosureAcc)
+                  (if tail then OTCallAcc else OCallAcc)), s5,
+         (ca ++ [VOp OPushImmediate; VArgc n] ++ [VOp OMovImmediate; VPtr lamp; VAcc; VOp OClosureAcc] ++ [callop]).
+  split; [reflexivity|].
+  split.
+  { rewrite !fwd_emit_op, fwd_emit3. unfold l2. rewrite fwd_emit, fwd_emit_op, F1, <- !app_assoc. reflexivity. }
+  split; [eapply same_hdr_trans; [exact S2|repeat split]|].
+  split; [exact MI5|].
+  assert (X35 : cext s3 s5) by (eapply cext_trans; eassumption).
+  assert (X15 : cext s1 s5) by (eapply cext_trans; eassumption).
+  split; [eapply cext_trans; eassumption|].
+  split.
+  { eapply same_regs_trans; [exact R1|]. eapply same_regs_trans; [exact R2|]. eapply same_regs_trans; [exact R3|].
+    eapply same_regs_trans; eassumption. }
+  (* the installed lambda *)
+  assert (HlamF : lam_in s5 lamp lamF) by (exists (next_id (st s4)); auto).
+  assert (HbcF : l_bc lamF = [VOp OEnter] ++ cb ++ [VOp ORet]).
+  { change (l_bc lamF) with (fwd (emit_op lam3 ORet)). rewrite fwd_emit_op, F4. unfold lam2. rewrite fwd_emit_op.
+    cbn [fwd set_desc lambda_from_iof l_bc rev app]. reflexivity. }
+  assert (HargsF : l_args lamF = aps).
+  { change (l_args lamF) with (l_args lam3). destruct S4 as (_ & _ & _ & -> & _). reflexivity. }
+  assert (HenvF : l_envmap lamF = ScopeProofs.enum_args (l_args lamF) 0).
+  { rewrite HargsF. change (l_envmap lamF) with (l_envmap lam3). destruct S4 as (_ & _ & -> & _ & _). exact Hem. }
+  assert (HlenF : len (l_args lamF) = n).
+  { rewrite HargsF, (Forall2_len _ _ _ Fa). unfold n, len. rewrite Hlen. reflexivity. }
+  change (len (fwd lam2)) with 1 in EX4.
+  set (p := len (fwd l)) in *.
+  intros lv rho r rho' HR. inversion HR; subst.
+  match goal with H : ref_evals2 _ _ rho args _ _ |- _ => rename H into HRa end.
+  match goal with H : ref_eval2 ps _ _ body _ _ |- _ => rename H into HRb end.
+  specialize (EX4 _ _ _ _ HRb).
+  intros m lp bc X MIm Hc Hs Hip G L Ht.
+  apply seg_app in Hs as [Hsa Hs]. apply seg_app in Hs as [Hsi Hs]. rewrite len2 in Hs.
+  apply seg_app in Hs as [Hsm Hsc]. change (len [VOp OMovImmediate; VPtr lamp; VAcc; VOp OClosureAcc]) with 4 in Hsc.
+  change [VOp OMovImmediate; VPtr lamp; VAcc; VOp OClosureAcc]
+    with ([VOp OMovImmediate; VPtr lamp; VAcc] ++ [VOp OClosureAcc]) in Hsm.
+  apply seg_app in Hsm as [Hsm Hscl]. rewrite len3 in Hscl.
+  (* operands *)
+  destruct (EX1 _ _ _ _ HRa m lp bc (cext_trans _ _ _ X15 X) MIm Hc Hsa Hip G L)
+    as (n1 & m1 & vs & St1 & MIm1 & Hip1 & G1 & Xm1 & Hsp1 & Hbp1 & Hep1 & Hlog1 & Hst1 & Hvl & Hvs & Vvs).
+  fold n in Hsp1, Hvl.
+  pose proof (code_in_ext _ _ _ _ Hc (rx_cext _ _ Xm1)) as Hc1.
+  (* PUSH Argc n *)
+  pose proof (step_pushimm ob m1 lp _ bc _ Hc1 Hip1 Hsi ltac:(discriminate)) as Ei.
+  set (m2 := pushed (with_ip m1 (lp, p + len ca + 2)) (VArgc n)) in *.
+  assert (Xm12 : rext m1 m2) by (apply rext_same; try reflexivity; lia).
+  assert (MIm2 : minv m2).
+  { destruct MIm1 as [HI GI SP]. constructor; [exact HI|exact GI|]. apply pushed_sp_lt. exact SP. }
+  assert (Hc2 : code_in m2 lp bc) by (eapply code_in_regs; [| |exact Hc1]; reflexivity).
+  (* MOV lambda %acc *)
+  pose proof (step_movimm ob m2 lp _ bc (VPtr lamp) Hc2 eq_refl Hsm ltac:(discriminate)) as Em.
+  set (m3 := with_acc (with_ip m2 (lp, p + len ca + 2 + 3)) (VPtr lamp)) in *.
+  assert (SM3 : same_mem m2 m3) by (repeat split).
+  pose proof (same_mem_minv _ _ SM3 MIm2) as MIm3.
+  assert (Hc3 : code_in m3 lp bc) by (eapply code_in_regs; [| |exact Hc2]; reflexivity).
+  assert (Xm03 : rext m m3).
+  { eapply rext_trans; [exact Xm1|]. eapply rext_trans; [exact Xm12|]. apply frame2_rext, same_mem_frame2, SM3. }
+  assert (Hlam3 : lam_in m3 lamp lamF).
+  { eapply lam_in_ext; [|exact HlamF]. eapply cext_trans; [exact X|apply Xm03]. }
+  (* CLOSURE *)
+  destruct Hlam3 as (lid & Al3 & Cl3 & Ltl3 & Tl3).
+  destruct (step_closure ob m3 lp _ bc lamp lid lamF Hc3 eq_refl Hscl MIm3 eq_refl
+              ltac:(rewrite (heap_get_alloc _ _ Al3), Cl3; reflexivity) Tl3 HenvF)
+    as (m4 & cp & cep & eid & E4c & MIm4 & Xm34 & Hsp4 & Hbp4 & Hep4 & Hcap4 & Hstk4 & Hlog4 & Hg4 & Hip4 & Hacc4 &
+        Acp & Ccp & Acep & Ccep & Lteid & Teid).
+  assert (Xm04 : rext m m4) by (eapply rext_trans; eassumption).
+  assert (Hsp4' : sp m4 = sp m + n + 1) by (rewrite Hsp4; cbn [sp m3 m2 pushed with_acc with_scap with_stack with_ip]; lia).
+  assert (Hk4 : forall j, sget m4 j = sget m2 j) by (intros j; unfold sget; rewrite Hstk4; reflexivity).
+  assert (Hk4lo : forall j, j <= sp m + n -> sget m4 j = sget m1 j).
+  { intros j Hj. rewrite Hk4. unfold m2. rewrite sget_pushed_other by (cbn [sp with_ip]; lia). reflexivity. }
+  assert (Htop4 : sget m4 (sp m + n + 1) = VArgc n).
+  { rewrite Hk4. unfold m2. replace (sp m + n + 1) with (sp (with_ip m1 (lp, p + len ca + 2)) + 1) by (cbn [sp with_ip]; lia).
+    apply sget_pushed_top. }
+  assert (Hargs4 : forall i v, list_get vs i = Some v -> sget m4 (sp m + 1 + i) = v).
+  { intros i v Hi. pose proof (list_get_lt _ _ _ Hi) as Hlt. rewrite Hk4lo by lia. apply Hvs. exact Hi. }
+  assert (Hlow4 : forall j, j <= sp m -> sget m4 j = sget m j).
+  { intros j Hj. rewrite Hk4lo by lia. apply Hst1. exact Hj. }
+  assert (Vvs4 : Forall2 (fun v r => vrep v r (hp m4) (st m4)) vs rs).
+  { clear -Vvs Xm12 SM3 Xm34. induction Vvs as [|v0 r0 vs0 rs0 V0 _ IHV]; constructor; [|exact IHV].
+    eapply vrep_ext; [exact V0|]. apply cext_ext. eapply cext_trans; [apply Xm12|].
+    eapply cext_trans; [apply (same_mem_frame _ _ SM3)|apply Xm34]. }
+  assert (G4 : genv_rel rho1 m4).
+  { eapply genv_rel_ext; [|exact Hg4|]; [apply Xm34|]. eapply genv_rel_ext; [apply (same_mem_frame _ _ SM3)|reflexivity|].
+    eapply genv_rel_ext; [apply Xm12|reflexivity|exact G1]. }
+  assert (Hbp4' : bp m4 = bp m) by (rewrite Hbp4; exact Hbp1).
+  assert (Hep4' : ep m4 = ep m) by (rewrite Hep4; exact Hep1).
+  assert (Hlog4' : out_log m4 = out_log m) by (rewrite Hlog4; exact Hlog1).
+  assert (Hc4 : code_in m4 lp bc) by (eapply code_in_ext; [exact Hc3|apply Xm34]).
+  assert (Hlam4 : lam_in m4 lamp lamF).
+  { eapply lam_in_ext; [apply Xm34|]. exists lid; auto. }
+  assert (Hgcp : heap_get (hp m4) cp = Ok (VClosure lamp cep)) by (rewrite (heap_get_alloc _ _ Acp), Ccp; reflexivity).
+  assert (Hgcep : heap_get (hp m4) cep = Ok (VLexEnv eid)) by (rewrite (heap_get_alloc _ _ Acep), Ccep; reflexivity).
+  assert (Hcl : len (repeat VUndef (length (l_args lamF))) = n).
+  { unfold len. rewrite repeat_length. exact HlenF. }
+  assert (St04 : steps (n1 + 1 + 1 + 1) m = Some m4).
+  { eapply steps_trans; [eapply steps_trans; [eapply steps_trans; [exact St1|apply steps_one; exact Ei]|apply steps_one; exact Em]|apply steps_one; exact E4c]. }
+  assert (Xs3m4 : cext s4 m4) by (eapply cext_trans; [exact X5|]; eapply cext_trans; [exact X|apply Xm04]).
+  set (q := p + len ca + 2 + 3 + 1) in *.
+  assert (Hq : p + len (ca ++ [VOp OPushImmediate; VArgc n] ++ [VOp OMovImmediate; VPtr lamp; VAcc; VOp OClosureAcc] ++ [callop]) = q + 1).
+  { unfold q. lens. lia. }
+  replace (p + len ca + 2 + 4) with q in Hsc by (unfold q; lia).
+  destruct tail.
+  - (* tail position: TCALL re-uses the current frame *)
+    right. split; [reflexivity|].
+    destruct (Ht eq_refl) as (k & e & i & b & Hfr & Hspf).
+    assert (Hfr4 : frame_at m4 k e i b) by (eapply frame_at_keep; [exact Hfr|exact Hspf|exact Hbp4'|exact Hlow4]).
+    destruct (step_tcall_closure ob m4 lp q bc cp lamp cep k e i b n Hc4 Hip4 Hsc Hacc4 Hgcp Hfr4
+                ltac:(rewrite Hsp4'; exact Htop4) ltac:(rewrite Hbp4', Hsp4'; lia) (mi_sp _ MIm4))
+      as (T & Et & TT1 & TT2 & TT3 & TT4 & TT5).
+    rewrite Hbp4' in Et, TT1, TT2, TT3, TT4, TT5.
+    set (B := bp m - k) in *.
+    set (m5 := with_ip (with_bp (with_stack (with_ip m4 (lp, q + 1)) T (B + n + 3)) b) (lamp, 0)) in *.
+    assert (Hs5 : forall j, sget m5 j = slot T j) by reflexivity.
+    assert (Hkb : k <= bp m) by (destruct Hfr as (_ & _ & _ & _ & H5); exact H5).
+    assert (X45 : rext m4 m5) by (apply rext_same; try reflexivity; lia).
+    assert (MIm5 : minv m5).
+    { destruct MIm4 as [HI GI SP]. constructor; [exact HI|exact GI|].
+      cbn [sp scap m5 with_ip with_bp with_stack]. unfold B. lia. }
+    destruct (callee_run s4 lamp lamF cb n B e (fst i) (snd i) vs rs rho1 r rho' m5 cp cep eid _ EX4
+                (cext_trans _ _ _ Xs3m4 (rx_cext _ _ X45)) MIm5
+                (lam_in_regs _ _ _ _ eq_refl eq_refl Hlam4) HbcF HenvF HlenF eq_refl Hacc4 Hgcp Hgcep Teid Hcl eq_refl
+                ltac:(rewrite Hs5; exact TT2) ltac:(rewrite Hs5; exact TT3) ltac:(rewrite Hs5; exact TT4) Hvl)
+      as (k8 & m8 & St8 & X58 & MI8 & V8 & G8 & Hsp8 & Hep8 & Hip8 & Hbp8 & Hlog8 & Hk8).
+    { intros j v Hj. pose proof (list_get_lt _ _ _ Hj) as Hlt. rewrite Hs5, TT1 by lia.
+      rewrite Hsp4'. replace (sp m + n + 1 - n + j) with (sp m + 1 + j) by lia. apply Hargs4. exact Hj. }
+    { exact Vvs4. }
+    { eapply genv_rel_ext; [apply X45|reflexivity|exact G4]. }
+    exists (n1 + 1 + 1 + 1 + 1 + k8)%nat, m8, k, e, i, b.
+    split; [eapply steps_trans; [eapply steps_trans; [exact St04|apply steps_one; exact Et]|exact St8]|].
+    split; [exact Hfr|]. split; [eapply rext_trans; [exact Xm04|]; eapply rext_trans; eassumption|].
+    split; [exact MI8|]. split; [exact V8|]. split; [exact G8|]. split; [exact Hsp8|]. split; [exact Hep8|].
+    split; [rewrite Hip8; destruct i; reflexivity|]. split; [exact Hbp8|].
+    split; [rewrite Hlog8; exact Hlog4'|].
+    intros j Hj. rewrite Hk8 by exact Hj. rewrite Hs5, TT5 by exact Hj. apply Hlow4. unfold B in Hj. lia.
+  - (* non-tail position: CALL pushes a new frame above %sp *)
+    left.
+    pose proof (step_call_closure ob m4 lp q bc cp lamp cep Hc4 Hip4 Hsc Hacc4 Hgcp) as Ecall.
+    set (m5 := with_ip (pushed (pushed (with_ip m4 (lp, q + 1)) (VEp (ep m4))) (VIp lp (q + 1))) (lamp, 0)) in *.
+    assert (X45 : rext m4 m5) by (apply rext_same; try reflexivity; lia).
+    assert (MIm5 : minv m5).
+    { destruct MIm4 as [HI GI SP]. constructor; [exact HI|exact GI|].
+      unfold m5. change (sp (with_ip ?x _)) with (sp x). change (scap (with_ip ?x _)) with (scap x).
+      apply pushed_sp_lt. apply pushed_sp_lt. exact SP. }
+    assert (Hsp5 : sp m5 = sp m + n + 3) by (cbn [sp m5 pushed with_scap with_stack with_ip]; rewrite Hsp4'; lia).
+    assert (Hk5 : forall j, j <= sp m + n + 1 -> sget m5 j = sget m4 j).
+    { intros j Hj. unfold m5. change (sget (with_ip ?x _) ?jj) with (sget x jj).
+      rewrite sget_pushed_other by (cbn [sp pushed with_scap with_stack with_ip]; rewrite Hsp4'; lia).
+      rewrite sget_pushed_other by (cbn [sp with_ip]; rewrite Hsp4'; lia). reflexivity. }
+    assert (H52 : sget m5 (sp m + n + 2) = VEp (ep m4)).
+    { unfold m5. change (sget (with_ip ?x _) ?jj) with (sget x jj).
+      rewrite sget_pushed_other by (cbn [sp pushed with_scap with_stack with_ip]; rewrite Hsp4'; lia).
+      replace (sp m + n + 2) with (sp (with_ip m4 (lp, q + 1)) + 1) by (cbn [sp with_ip]; rewrite Hsp4'; lia).
+      apply sget_pushed_top. }
+    assert (H53 : sget m5 (sp m + n + 3) = VIp lp (q + 1)).
+    { unfold m5. change (sget (with_ip ?x _) ?jj) with (sget x jj).
+      replace (sp m + n + 3) with (sp (pushed (with_ip m4 (lp, q + 1)) (VEp (ep m4))) + 1)
+        by (cbn [sp pushed with_scap with_stack with_ip]; rewrite Hsp4'; lia).
+      apply sget_pushed_top. }
+    destruct (callee_run s4 lamp lamF cb n (sp m) (ep m4) lp (q + 1) vs rs rho1 r rho' m5 cp cep eid _ EX4
+                (cext_trans _ _ _ Xs3m4 (rx_cext _ _ X45)) MIm5
+                (lam_in_regs _ _ _ _ eq_refl eq_refl Hlam4) HbcF HenvF HlenF eq_refl Hacc4 Hgcp Hgcep Teid Hcl Hsp5
+                ltac:(rewrite Hk5 by lia; exact Htop4) H52 H53 Hvl)
+      as (k8 & m8 & St8 & X58 & MI8 & V8 & G8 & Hsp8 & Hep8 & Hip8 & Hbp8 & Hlog8 & Hk8).
+    { intros j v Hj. pose proof (list_get_lt _ _ _ Hj) as Hlt. rewrite Hk5 by lia. apply Hargs4. exact Hj. }
+    { exact Vvs4. }
+    { eapply genv_rel_ext; [apply X45|reflexivity|exact G4]. }
+    assert (Xm08 : rext m m8) by (eapply rext_trans; [exact Xm04|]; eapply rext_trans; eassumption).
+    exists (n1 + 1 + 1 + 1 + 1 + k8)%nat, m8.
+    split; [eapply steps_trans; [eapply steps_trans; [exact St04|apply steps_one; exact Ecall]|exact St8]|].
+    split.
+    { split; [|apply Xm08]. constructor.
+      - apply Xm08.
+      - exact Hsp8.
+      - rewrite Hbp8. exact Hbp4'.
+      - rewrite Hep8. exact Hep4'.
+      - rewrite Hlog8. exact Hlog4'.
+      - intros j Hj. rewrite Hk8 by exact Hj. rewrite Hk5 by lia. apply Hlow4. exact Hj. }
+    split; [exact MI8|]. split; [rewrite Hip8, Hq; reflexivity|]. split; [exact V8|exact G8].
+Qed.
+
+(* ------------------------------------------------------------ the extended fragment, by induction *)
+Theorem compile_correct2 : (forall b, builtin_ok ob bsem b) -> (forall b, builtin_envs b) ->
+  forall e ps, wf_expr2 e ps -> compile_ok2 ps e.
+Proof.
+  intros Hb He.
+  induction e as [c|d|c a b IHc IHa IHb|c a IHc IHa|x|x e IH|x e IH|f0 args IHf IHargs|ps' body args IHbody IHargs]
+    using expr2_ind2; intros ps Hwf.
+  - apply cok2_const. exact Hwf.
+  - apply cok2_quote. exact Hwf.
+  - destruct Hwf as (Wc & Wa & Wb). apply cok2_if; auto.
+  - destruct Hwf as (Wc & Wa). apply cok2_if1; auto.
+  - apply cok2_var. exact Hwf.
+  - apply cok2_define; [exact Hwf|]. apply IH. apply Hwf.
+  - apply cok2_set; [exact Hwf|]. apply IH. apply Hwf.
+  - pose proof Hwf as Hwf'. apply wf2_app in Hwf' as (_ & Wf & Wargs).
+    apply cok2_app; auto.
+    clear -IHargs Wargs. induction IHargs as [|x r Hx _ IH]; constructor; inversion Wargs; subst; auto.
+  - pose proof Hwf as Hwf'. apply wf2_let in Hwf' as (_ & _ & _ & _ & Wb & Wargs).
+    apply cok2_let; auto.
+    clear -IHargs Wargs. induction IHargs as [|x r Hx _ IH]; constructor; inversion Wargs; subst; auto.
+Qed.
+
+(* ------------------------------------------------------------ Vm::eval *)
+Section Eval2.
+Hypothesis Hb : forall b, builtin_ok ob bsem b.
+Hypothesis He : forall b, builtin_envs b.
+
+Theorem eval_fragment2 e rho r rho' s :
+  wf_expr2 e [] -> ref_eval2 [] [] rho e r rho' -> minv s -> genv_rel rho s ->
+  transform_expr TRANSFORM_FUEL s (cell_of2 e) = Ok (cell_of2 e) ->
+  exists n m, (forall fuel, (n <= fuel)%nat -> eval ob fuel (cell_of2 e) s = halt_result m) /\
+    vrep (acc m) r (hp m) (st m) /\ genv_rel rho' m /\ minv m /\ cext s m /\
+    sp m = sp s /\ bp m = bp s /\ ep m = ep s /\ out_log m = out_log s.
+Proof.
+  intros Hwf HR MI G Htr.
+  assert (Ht : top_hdr top_lam) by (split; reflexivity).
+  destruct (compile_correct2 Hb He e [] Hwf (S (S (cell_size (cell_of2 e)))) top_lam true s ltac:(lia) (top_hdr_hdr top_lam s Ht) MI)
+    as (l1 & sA & code & E1 & F1 & S1 & MIA & XA & RA & EX).
+  specialize (EX _ _ _ _ HR).
+  destruct (put_lambda_spec (emit_op l1 ORet) sA MIA) as (a & sB & E2 & MIB & XB & RB & GbB & _ & AB & CB & LB & TB).
+  destruct (put_lambda_spec (entry_lam (VPtr a)) sB MIB) as (a0 & sC & E3 & MIC & XC & RC & GbC & _ & AC & CC & LC & TC).
+  set (m0 := with_ip sC (a0, 0)).
+  assert (Hprep : prepare_eval (cell_of2 e) s = ROk tt m0).
+  { unfold prepare_eval. unfold bindM at 1. rewrite compile_runnable_eq.
+    unfold bindM at 1. unfold compile. rewrite Htr, E1. unfold bindM at 1. rewrite E2. unfold ret at 1.
+    unfold bindM at 1. rewrite E3. reflexivity. }
+  assert (XsC : cext s sC) by (eapply cext_trans; [exact XA|]; eapply cext_trans; eassumption).
+  assert (RsC : same_regs s sC) by (eapply same_regs_trans; [exact RA|]; eapply same_regs_trans; eassumption).
+  destruct RsC as (Rsp & Rbp & Rep & Rcap & Rstk & Rlog & more & Rg).
+  pose proof (genv_rel_compile rho s sC XsC (conj Rsp (conj Rbp (conj Rep (conj Rcap (conj Rstk (conj Rlog (ex_intro _ more Rg))))))) G) as GC.
+  (* the two code blocks *)
+  set (bc0 := [VOp OPushImmediate; VArgc 0; VOp OMovImmediate; VPtr a; VAcc; VOp OCallAcc; VOp OHalt]).
+  set (bc1 := ([VOp OEnter] ++ code) ++ [VOp ORet]).
+  assert (Hbc1 : l_bc (lambda_finish (emit_op l1 ORet)) = bc1).
+  { change (l_bc (lambda_finish (emit_op l1 ORet))) with (fwd (emit_op l1 ORet)). rewrite fwd_emit_op, F1. reflexivity. }
+  assert (HcB : code_in sB a bc1).
+  { eexists; eexists. split; [exact AB|]. split; [exact CB|]. split; [exact LB|]. split; [exact TB|exact Hbc1]. }
+  assert (Hc1C : code_in sC a bc1) by (eapply code_in_ext; eassumption).
+  assert (Hc0C : code_in sC a0 bc0).
+  { eexists; eexists. split; [exact AC|]. split; [exact CC|]. split; [exact LC|]. split; [exact TC|reflexivity]. }
+  assert (HgetA : heap_get (hp sC) a = Ok (VLambda (next_id (st sA)))).
+  { destruct (ce_heap _ _ XC a AB) as [A' C']. rewrite (heap_get_alloc _ _ A'), C', CB. reflexivity. }
+  assert (HlamA : tget (lams (st sC)) (next_id (st sA)) = Some (lambda_finish (emit_op l1 ORet))).
+  { rewrite (ce_lams _ _ XC) by exact LB. exact TB. }
+  assert (HargsA : l_args (lambda_finish (emit_op l1 ORet)) = []).
+  { change (l_args (lambda_finish (emit_op l1 ORet))) with (l_args l1). destruct S1 as (_ & _ & _ & -> & _). reflexivity. }
+  (* segments *)
+  assert (Sg0 : forall pre x post, bc0 = pre ++ x ++ post -> seg bc0 (len pre) x) by (intros pre x post Hx; exists pre, post; auto).
+  assert (Sg1 : forall pre x post, bc1 = pre ++ x ++ post -> seg bc1 (len pre) x) by (intros pre x post Hx; exists pre, post; auto).
+  pose proof (mi_sp _ MIC) as HcapC.
+  (* PUSH Argc 0 *)
+  pose proof (step_pushimm ob m0 a0 0 bc0 (VArgc 0) (code_in_ip _ _ _ _ Hc0C) eq_refl
+                (Sg0 [] [VOp OPushImmediate; VArgc 0] _ eq_refl) ltac:(discriminate)) as St1.
+  set (m1 := pushed (with_ip m0 (a0, 0 + 2)) (VArgc 0)) in *.
+  assert (Hc0_1 : code_in m1 a0 bc0) by (eapply code_in_regs; [| |exact Hc0C]; reflexivity).
+  (* MOV lambda %acc *)
+  pose proof (step_movimm ob m1 a0 (0 + 2) bc0 (VPtr a) Hc0_1 eq_refl
+                (Sg0 [VOp OPushImmediate; VArgc 0] [VOp OMovImmediate; VPtr a; VAcc] _ eq_refl) ltac:(discriminate)) as St2.
+  set (m2 := with_acc (with_ip m1 (a0, 0 + 2 + 3)) (VPtr a)) in *.
+  assert (Hc0_2 : code_in m2 a0 bc0) by (eapply code_in_regs; [| |exact Hc0C]; reflexivity).
+  (* CALL *)
+  pose proof (step_call_lambda ob m2 a0 (0 + 2 + 3) bc0 a _ Hc0_2 eq_refl
+                (Sg0 [VOp OPushImmediate; VArgc 0; VOp OMovImmediate; VPtr a; VAcc] [VOp OCallAcc] _ eq_refl)
+                eq_refl HgetA) as St3.
+  set (m3 := with_ip (pushed (pushed (with_ip m2 (a0, 0 + 2 + 3 + 1)) (VEp (ep m2))) (VIp a0 (0 + 2 + 3 + 1))) (a, 0)) in *.
+  assert (Hc1_3 : code_in m3 a bc1) by (eapply code_in_regs; [| |exact Hc1C]; reflexivity).
+  assert (Hsp3 : sp m3 = sp s + 3) by (cbn [sp m3 m2 m1 m0 pushed with_scap with_stack with_ip with_acc]; rewrite Rsp; lia).
+  assert (Hcap3 : sp m3 < scap m3).
+  { unfold m3. change (sp (with_ip ?x _)) with (sp x). change (scap (with_ip ?x _)) with (scap x).
+    apply pushed_sp_lt. apply pushed_sp_lt. unfold m2, m1. cbn [sp scap with_ip with_acc].
+    apply pushed_sp_lt. exact HcapC. }
+  assert (Hs3_1 : sget m3 (sp s + 1) = VArgc 0).
+  { unfold m3. change (sget (with_ip ?x _) ?j) with (sget x j).
+    rewrite sget_pushed_other by (cbn [sp m2 m1 m0 pushed with_scap with_stack with_ip with_acc]; rewrite Rsp; lia).
+    rewrite sget_pushed_other by (cbn [sp m2 m1 m0 pushed with_scap with_stack with_ip with_acc]; rewrite Rsp; lia).
+    change (sget (with_ip m2 _) ?j) with (sget m1 j). unfold m1.
+    replace (sp s + 1) with (sp (with_ip m0 (a0, 0 + 2)) + 1) by (cbn [sp m0 with_ip]; rewrite Rsp; reflexivity).
+    apply sget_pushed_top. }
+  assert (Hs3_2 : sget m3 (sp s + 2) = VEp (ep s)).
+  { unfold m3. change (sget (with_ip ?x _) ?j) with (sget x j).
+    rewrite sget_pushed_other by (cbn [sp m2 m1 m0 pushed with_scap with_stack with_ip with_acc]; rewrite Rsp; lia).
+    replace (sp s + 2) with (sp (with_ip m2 (a0, 0 + 2 + 3 + 1)) + 1)
+      by (cbn [sp m2 m1 m0 pushed with_scap with_stack with_ip with_acc]; rewrite Rsp; lia).
+    rewrite sget_pushed_top. cbn [ep m2 m1 m0 pushed with_scap with_stack with_ip with_acc]. rewrite Rep. reflexivity. }
+  assert (Hs3_3 : sget m3 (sp s + 3) = VIp a0 (0 + 2 + 3 + 1)).
+  { unfold m3. change (sget (with_ip ?x _) ?j) with (sget x j).
+    replace (sp s + 3) with (sp (pushed (with_ip m2 (a0, 0 + 2 + 3 + 1)) (VEp (ep m2))) + 1)
+      by (cbn [sp m2 m1 m0 pushed with_scap with_stack with_ip with_acc]; rewrite Rsp; lia).
+    apply sget_pushed_top. }
+  (* ENTER *)
+  pose proof (step_enter_top ob m3 a bc1 _ _ Hc1_3 eq_refl eq_refl eq_refl HgetA HlamA HargsA
+                ltac:(lia) Hcap3 ltac:(rewrite Hsp3; replace (sp s + 3 - 2) with (sp s + 1) by lia; exact Hs3_1)) as St4.
+  set (m4 := with_bp (pushed (with_ip m3 (a, 1)) (VBp (bp m3))) (sp m3 + 1 - 4)) in *.
+  assert (Hsp4 : sp m4 = sp s + 4) by (cbn [sp m4 pushed with_bp with_scap with_stack with_ip]; rewrite Hsp3; lia).
+  assert (Hbp4 : bp m4 = sp s) by (cbn [bp m4 with_bp]; rewrite Hsp3; lia).
+  assert (Hkeep4 : forall j, j <= sp s + 3 -> sget m4 j = sget m3 j).
+  { intros j Hj. unfold m4. change (sget (with_bp ?x _) ?k) with (sget x k).
+    rewrite sget_pushed_other by (cbn [sp with_ip]; rewrite Hsp3; lia). reflexivity. }
+  assert (Hs4_4 : sget m4 (sp s + 4) = VBp (bp s)).
+  { unfold m4. change (sget (with_bp ?x _) ?k) with (sget x k).
+    replace (sp s + 4) with (sp (with_ip m3 (a, 1)) + 1) by (cbn [sp with_ip]; rewrite Hsp3; lia).
+    rewrite sget_pushed_top. cbn [bp m3 m2 m1 m0 pushed with_scap with_stack with_ip with_acc]. rewrite Rbp. reflexivity. }
+  assert (XC4 : cext sC m4) by (apply cext_same; try reflexivity; lia).
+  assert (MI4 : minv m4).
+  { destruct MIC as [HI GI SP]. constructor; [exact HI|exact GI|].
+    unfold m4. change (sp (with_bp ?x _)) with (sp x). change (scap (with_bp ?x _)) with (scap x).
+    apply pushed_sp_lt. exact Hcap3. }
+  assert (Hc1_4 : code_in m4 a bc1) by (eapply code_in_regs; [| |exact Hc1C]; reflexivity).
+  assert (G4 : genv_rel rho m4) by (eapply genv_rel_ext; [exact XC4|reflexivity|exact GC]).
+  (* the code of e: it ends at RET, or a tail call in it returns from the frame *)
+  assert (Hfr4 : frame_at m4 0 (ep s) (a0, 0 + 2 + 3 + 1) (bp s)).
+  { unfold frame_at. rewrite Hbp4. rewrite !Hkeep4 by lia. cbn [fst snd]. repeat split; auto. lia. }
+  assert (Ht4 : tframe m4) by (exists 0, (ep s), (a0, 0 + 2 + 3 + 1), (bp s); split; [exact Hfr4|lia]).
+  assert (Hret : exists k m6, steps k m4 = Some m6 /\ cext m4 m6 /\ minv m6 /\ vrep (acc m6) r (hp m6) (st m6) /\
+            genv_rel rho' m6 /\ sp m6 = sp s /\ ep m6 = ep s /\ ip m6 = (a0, 0 + 2 + 3 + 1) /\ bp m6 = bp s /\
+            out_log m6 = out_log m4).
+  { destruct (EX m4 a bc1 (cext_trans _ _ _ XB (cext_trans _ _ _ XC XC4)) MI4 Hc1_4
+              (Sg1 [VOp OEnter] code [VOp ORet] ltac:(unfold bc1; rewrite <- app_assoc; reflexivity)) eq_refl G4
+              (lrel_nil m4) (fun _ => Ht4))
+      as [(n & m5 & St5 & Fr5' & MI5 & Hip5 & V5 & G5)|[_ (n & m6 & k' & e' & i' & b' & St6 & Hfr' & X46 & MI6 & V6 & G6 & Q1 & Q2 & Q3 & Q4 & Q5 & _)]].
+    - pose proof (f2_frame _ _ Fr5') as Fr5.
+      change (len (fwd top_lam)) with 1 in Hip5.
+      pose proof (code_in_ext _ _ _ _ Hc1_4 (fr_ext _ _ Fr5)) as Hc1_5.
+      assert (Hbp5 : bp m5 = sp s) by (rewrite (fr_bp _ _ Fr5); exact Hbp4).
+      assert (Hsp5 : sp m5 = sp s + 4) by (rewrite (fr_sp _ _ Fr5); exact Hsp4).
+      assert (Hk5 : forall j, j <= sp s + 4 -> sget m5 j = sget m4 j) by (intros j Hj; apply (fr_stack _ _ Fr5); lia).
+      assert (SgR : seg bc1 (1 + len code) [VOp ORet]).
+      { replace (1 + len code) with (len ([VOp OEnter] ++ code)) by (lens; lia).
+        apply (Sg1 _ _ []). unfold bc1. rewrite app_nil_r. reflexivity. }
+      pose proof (step_ret ob m5 a (1 + len code) bc1 (ep s) a0 (0 + 2 + 3 + 1) (bp s) Hc1_5 Hip5 SgR) as St6.
+      assert (Hcap5 : bp m5 + 4 < scap m5) by (rewrite Hbp5, <- Hsp5; apply MI5).
+      specialize (St6 Hcap5).
+      rewrite Hbp5 in St6.
+      specialize (St6 ltac:(rewrite Hk5, Hkeep4 by lia; exact Hs3_1) ltac:(rewrite Hk5, Hkeep4 by lia; exact Hs3_2)
+                      ltac:(rewrite Hk5, Hkeep4 by lia; exact Hs3_3) ltac:(rewrite Hk5 by lia; exact Hs4_4)).
+      set (m6 := with_bp (with_ip (with_ep (with_sp (with_ip m5 (a, 1 + len code + 1)) (sp s - 0)) (ep s)) (a0, 0 + 2 + 3 + 1)) (bp s)) in *.
+      assert (X56 : cext m5 m6) by (apply cext_same; try reflexivity; lia).
+      exists (n + 1)%nat, m6. split; [eapply steps_trans; [exact St5|apply steps_one; exact St6]|].
+      split; [eapply cext_trans; [apply Fr5|exact X56]|].
+      split.
+      { destruct MI5 as [HI GI SP]. constructor; [exact HI|exact GI|].
+        cbn [sp scap m6 with_bp with_ip with_ep with_sp with_stack]. lia. }
+      split; [exact V5|]. split; [eapply genv_rel_ext; [exact X56|reflexivity|exact G5]|].
+      split; [cbn [sp m6 with_bp with_ip with_ep with_sp with_stack]; lia|].
+      split; [reflexivity|]. split; [reflexivity|]. split; [reflexivity|].
+      cbn [out_log m6 with_bp with_ip with_ep with_sp with_stack]. apply Fr5.
+    - destruct Hfr4 as (W1 & W2 & W3 & W4 & _). destruct Hfr' as (W1' & W2' & W3' & W4' & _).
+      rewrite W1 in W1'. rewrite W2 in W2'. rewrite W3 in W3'. rewrite W4 in W4'.
+      injection W1' as <-. injection W2' as <-. injection W4' as <-. cbn [fst snd] in W3'.
+      assert (i' = (a0, 0 + 2 + 3 + 1)) as -> by (destruct i'; cbn [fst snd] in W3'; congruence).
+      exists n, m6. split; [exact St6|]. split; [apply X46|]. split; [exact MI6|]. split; [exact V6|].
+      split; [exact G6|]. split; [rewrite Q1, Hbp4; lia|]. split; [exact Q2|]. split; [exact Q3|].
+      split; [exact Q4|exact Q5]. }
+  destruct Hret as (n & m6 & St6 & X46 & MI6 & V6 & G6 & Hsp6 & Hep6 & Hip6 & Hbp6 & Hlog6).
+  (* HALT *)
+  assert (Hc0_6 : code_in m6 a0 bc0).
+  { eapply code_in_ext; [|exact X46]. eapply code_in_ext; [exact Hc0C|exact XC4]. }
+  pose proof (step_halt ob m6 a0 (0 + 2 + 3 + 1) bc0 Hc0_6 Hip6
+                (Sg0 [VOp OPushImmediate; VArgc 0; VOp OMovImmediate; VPtr a; VAcc; VOp OCallAcc] [VOp OHalt] [] eq_refl)) as St7.
+  set (m7 := with_ip m6 (a0, 0 + 2 + 3 + 1 + 1)) in *.
+  exists (1 + 1 + 1 + 1 + n + 1)%nat, m7. split.
+  { intros fuel Hfuel. unfold eval. rewrite Hprep. unfold run_count.
+    replace fuel with ((1 + 1 + 1 + 1 + n) + S (fuel - (1 + 1 + 1 + 1 + n + 1)))%nat by lia.
+    rewrite (run_loop_steps ob (1 + 1 + 1 + 1 + n) m0 m6).
+    - rewrite run_loop_S, St7. reflexivity.
+    - eapply steps_trans; [|exact St6].
+      eapply steps_trans; [|apply steps_one; exact St4].
+      eapply steps_trans; [|apply steps_one; exact St3].
+      eapply steps_trans; [apply steps_one; exact St1|apply steps_one; exact St2]. }
+  assert (X67 : cext m6 m7) by (apply cext_same; try reflexivity; lia).
+  split; [exact V6|].
+  split; [eapply genv_rel_ext; [exact X67|reflexivity|exact G6]|].
+  split.
+  { destruct MI6 as [HI GI SP]. constructor; [exact HI|exact GI|exact SP]. }
+  split; [eapply cext_trans; [exact XsC|]; eapply cext_trans; [exact XC4|]; eapply cext_trans; [exact X46|exact X67]|].
+  split; [exact Hsp6|]. split; [exact Hbp6|]. split; [exact Hep6|].
+  change (out_log m7) with (out_log m6). rewrite Hlog6.
+  cbn [out_log m4 m3 m2 m1 m0 pushed with_bp with_scap with_stack with_ip with_acc]. exact Rlog.
+Qed.
+
+End Eval2.
+
 End Sem2.
+
+Print Assumptions compile_correct2.
+Print Assumptions eval_fragment2.
+
+(* ============================================================ the real `not` again *)
+From MW Require Model.ListVec Model.Builtins.
+
+Lemma bind_ok_inv2 {A B} (x : M A) (f : A -> M B) s r s' : bindM x f s = ROk r s' ->
+  exists a s1, x s = ROk a s1 /\ f a s1 = ROk r s'.
+Proof. unfold bindM. destruct (x s) as [a s1| | |]; try discriminate. eauto. Qed.
+Lemma pop_raw_st m v m' : pop_raw m = ROk v m' -> st m' = st m.
+Proof.
+  unfold pop_raw. destruct (sp m =? 0); [discriminate|]. destruct (sp m <? scap m); [|discriminate].
+  intros [= _ <-]. reflexivity.
+Qed.
+Lemma not_b_st m v m' : ListVec.not_b m = ROk v m' -> st m' = st m.
+Proof.
+  unfold ListVec.not_b. intros H.
+  apply bind_ok_inv2 in H as (n & s1 & H1 & H).
+  apply bind_ok_inv2 in H as (w & s2 & H2 & H). unfold ret in H. injection H as _ <-.
+  unfold pop_argc in H1. apply bind_ok_inv2 in H1 as (v0 & s0 & P0 & H1).
+  assert (s1 = s0) as ->.
+  { destruct v0; try discriminate. destruct ((_ <? _) || _); [discriminate|]. injection H1 as _ <-. reflexivity. }
+  unfold pop_value, pop_deref in H2. apply bind_ok_inv2 in H2 as (v1 & s3 & P1 & H2).
+  unfold hderef, lift in H2. destruct (heap_deref (hp s3) v1); try discriminate. injection H2 as _ <-.
+  rewrite (pop_raw_st _ _ _ P1). apply (pop_raw_st _ _ _ P0).
+Qed.
+
+Theorem builtin_envs_not : forall b, builtin_envs Builtins.other_builtin bsem_not b.
+Proof.
+  intros b m v m' rs r Hsem Hrun. unfold bsem_not in Hsem.
+  destruct (N.eqb_spec b B_NOT) as [->|]; [|discriminate].
+  rewrite run_builtin_not in Hrun. rewrite (not_b_st _ _ _ Hrun). reflexivity.
+Qed.
+Lemma builtin_envs_unspecified ob b : builtin_envs ob (fun _ _ => None) b.
+Proof. intros m v m' rs r H. discriminate. Qed.
